@@ -1,4 +1,4 @@
-\* implementation as it is now on V1/V2 with listfile, unencrypted, no substring names: refines MpqMap like the design
+\* implementation as it is now (encryption, fix_key and substring names included), archive with listfile: satisfies everything the design does
 CONSTANTS
   H = 4
   UNames <- MCNames
@@ -6,7 +6,7 @@ CONSTANTS
   InitSeq <- MCInit
   InitTok <- MCInitTok
   InitRaw = {}
-  SubOf <- NoSub
+  SubOf <- MCSub
   HasLF0 = TRUE
   HasAT0 = FALSE
   Slack = 2
@@ -14,7 +14,7 @@ CONSTANTS
   Ver = 1
   MaxCalls = 4
   MCToks = {"t1"}
-SPECIFICATION CodeOkSpec
+SPECIFICATION CodeNowSpec
 INVARIANT SlotType TableInv ProbeBounded TablesDisjointFromData NoDamage ListfileExact AbsClean
 PROPERTY AbsSpec OpRefines AtomicRefines
 CHECK_DEADLOCK FALSE
